@@ -152,7 +152,9 @@ def make_spec(g, allow=()):
     files = [(sd, None, None), (r.choice(['snaps', sd, sd]), r.choice(['custom', 'custom', 'custom'] + SNAPPY_NAMES), None),
              (r.choice(['other/dir', 'other//dir/', 'other/' + r.choice(ODD_DIRS)]), None, '.txt')]
     nfiles = r.choice([2, 2, 3]) if 'ends' in allow else r.choice([1, 1, 2, 3])
-    cfgs = [cfg_line(i + 1, *files[i]) for i in range(nfiles)]
+    # (a Config may carry Update(true): an option of the Match* calls made through it - what Clean may delete is decided
+    # by CI / UPDATE_SNAPS alone)
+    cfgs = [cfg_line(i + 1, *files[i], r.choice(['none', 'none', 'true'])) for i in range(nfiles)]
     tests = []
     for n in names:
         calls = []
